@@ -1,0 +1,18 @@
+//go:build verif
+
+package errbase
+
+// Contracts for the deductive verifier in /verif (comment-only file; see /verif/DESIGN.md).
+
+//@ func UnwrapOnce
+//@   props C07 C08 C13 C14
+//@   ensures result == cause1(err)
+
+//@ func UnwrapMulti
+//@   props C07 C08 C13 C14
+//@   ensures result == causes(err)
+
+//@ func GetTypeMark
+//@   props C02 C08
+//@   requires err != nil
+//@   defines tmark(err)
